@@ -142,6 +142,29 @@ def prepare(case, double=False):
     return p
 
 
+# Components whose 1-D table input is documented as "monotonic" / "sorted" (not strictly): a table with repeated or
+# all-equal edges is in their domain (numpy.digitize: "bins ... must be monotonic"; numpy.searchsorted: "a ... sorted").
+FLAT_TABLE_OK = ("digitize", "searchsorted")
+
+
+def structural_variants(p):
+    """Extra feed sets for structured inputs that stay inside the documented domain (same shapes)."""
+    if p.base is None or not any(k in str(p.case["id"]).lower() for k in FLAT_TABLE_OK):
+        return []
+    out = []
+    for i, b in enumerate(p.base):
+        if b.ndim == 1 and b.size >= 2 and b.dtype.kind == "f" and (np.all(np.diff(b) >= 0) or np.all(np.diff(b) <= 0)):
+            flat = [x.copy() for x in p.base]
+            flat[i] = np.full_like(b, b[0])
+            out.append(("flat_table", flat))
+            dup = [x.copy() for x in p.base]
+            d = b.copy()
+            d[1] = d[0]
+            dup[i] = d
+            out.append(("repeated_edge", dup))
+    return out
+
+
 def feeds(p, rng, mode, sym=3):
     if p.base is not None:
         sc = SCALES[mode % len(SCALES)]
